@@ -99,6 +99,7 @@ type bAct struct {
 	F      string   `json:"f"`
 	Ka     int      `json:"ka"`
 	Ty     string   `json:"ty"`
+	Form   string   `json:"form"`
 }
 type bPkt struct {
 	Ty    string `json:"ty"`
@@ -384,7 +385,11 @@ func connectBytes(a bAct) []byte {
 	if a.Clean {
 		flags |= 2
 	}
-	tail := lp([]byte(a.K))
+	cid := a.K
+	if strings.HasPrefix(a.Form, "anon") {
+		cid = "" // zero-length client identifier: the broker assigns one
+	}
+	tail := lp([]byte(cid))
 	if a.Will.On {
 		flags |= 4 | byte(a.Will.Q)<<3
 		if a.Will.R {
@@ -397,9 +402,28 @@ func connectBytes(a bAct) []byte {
 	if ka == 0 {
 		ka = 60
 	}
-	// every accepted client logs in as "good" (only a selective authenticator looks at it)
-	flags |= 0x80
-	tail = append(tail, lp([]byte("good"))...)
+	if strings.Contains(a.Form, "ka0") {
+		ka = 0
+	}
+	// every accepted client logs in as "good" (only a selective authenticator looks at it) unless the
+	// form of the CONNECT says otherwise
+	switch {
+	case strings.HasSuffix(a.Form, "nouser"):
+	case strings.HasSuffix(a.Form, "emptyuser"):
+		flags |= 0x80
+		tail = append(tail, lp(nil)...)
+	case strings.HasSuffix(a.Form, "emptypass"):
+		flags |= 0xc0
+		tail = append(tail, lp([]byte("good"))...)
+		tail = append(tail, lp(nil)...)
+	case strings.HasSuffix(a.Form, "userpass"):
+		flags |= 0xc0
+		tail = append(tail, lp([]byte("good"))...)
+		tail = append(tail, lp([]byte("pw"))...)
+	default:
+		flags |= 0x80
+		tail = append(tail, lp([]byte("good"))...)
+	}
 	body := append(lp([]byte("MQTT")), 4, flags, byte(ka>>8), byte(ka))
 	return pkt(0x10, append(body, tail...))
 }
@@ -578,8 +602,8 @@ func tagFor(a bAct, exp [][]bPkt, got []bPkt, conn string) string {
 	case a.A == "refuse":
 		return "C11"
 	case a.A == "connect":
-		if types["PUBLISH"] {
-			return "C10"
+		if a.Form != "" && a.Form != "plain" {
+			return "C11" // an acceptable CONNECT in another wire form must be answered like the plain one
 		}
 		return "C10"
 	case a.A == "end":
